@@ -92,6 +92,15 @@ def main():
                           {"engine": "kernel", "cfg": cfg, "model": r["model"]})
         elif r["verdict"] != "unsat":
             chk.note_inconclusive("kernel %s: %s" % (cfg, r["verdict"]))
+    # the pool the (at most four) steered fields of a rand set are drawn from is the whole set (concrete structural check on the real
+    # swizzle_field_l with an RNG stub that returns the last index; sizes 1..12)
+    from vf import swzkernel as K
+    for n in range(1, 13):
+        ok, info = K.swizzle_pool(n)
+        chk.count("swizzle_pool(%d)" % n)
+        if not ok:
+            chk.violation({"kind": "swizzle_pool"}, "with %d random fields in a rand set the fields that get randomising targets are not drawn from the whole set: %s" % (n, info),
+                          {"engine": "script", "source": "import sys; sys.path.insert(0, '/verif'); from vf import swzkernel as K; ok, info = K.swizzle_pool(%d); print(info); sys.exit(0 if ok else 1)" % n})
     # the RNG wrapper the domains are drawn through
     from vf import e3
     e3.run_e3(chk, [dict(bits=b, swap=sw) for b in (8, 31, 32, 33, 53, 54, 64, 65, 128) for sw in (False, True)], rng_build, replay_module="checks.c14:rng_build", chunk=1)
